@@ -315,6 +315,72 @@ def run(ctx):
                 ctx.violation("C14|template-model-disagrees", f"template string {s!r}: engine {got}, model {exp}",
                               {"scenario": sc, "string": s, "engine": got, "model": exp})
                 break
+    # ---- a value a script stores in the process env is there, unchanged, after the process has been reloaded from the store
+    esc = []
+    for k, v in enumerate([3000000000, -2147483649, {"n": 2 ** 53, "f": -2.5, "s": "ünï 日本", "z": None}, [1.5, "q\"uote", 2 ** 40 + 3], "line\nbreak", 1e-7]):
+        w = {"id": "me", "inputs": {"v": v, "r1": None}, "outputs": {"r1": None},
+             "steps": [{"id": "s1", "acts": [{"id": "a1", "uses": gen.CODE, "params": "$env.kept = v;"}, {"id": "a2", "uses": gen.IRQ, "key": "k2"},
+                                             {"id": "a3", "uses": gen.CODE, "params": "return {r1: $env.kept};"}]}]}
+        store = "sqlite" if k % 2 else "mem"
+        esc.append(({"id": f"envkeep-{k}", "config": {"keep": True, "store": store}, "models": [w],
+                     "ops": [["deploy", 0], ["start", "me", {"pid": "p1"}], ["runall"], ["restart"] if store == "sqlite" else ["evict", "p1"],
+                             ["act", "next", "p1", {"nid": "a2", "k": -1}, {}], ["runall"]]}, v))
+    eres = ctx.harness("run", [x[0] for x in esc], tag="ek")
+    for (sc, v), res in zip(esc, eres):
+        ctx.cov["evaluations"] += 1
+        outs = None
+        for _, o in obs_of(res, {"pev"}):
+            if o.get("ev") == "complete" and o.get("chan") == "default":
+                outs = o.get("outputs")
+        if outs is None or not same_value(to_tagged(outs.get("r1")), to_tagged(v)):
+            ctx.violation("C14|env-value-after-reload", f"a script stored {json.dumps(v, ensure_ascii=False)[:60]} in the process env; after a reload ({sc['config']['store']}) a script reads "
+                          f"{json.dumps(None if outs is None else outs.get('r1'), ensure_ascii=False)[:60]}", {"scenario": sc})
+        else:
+            ctx.nontrivial(["envkeep", json.dumps(v)])
+    # ---- a variable whose name is also the id of a node that has a task (an act, a branch): scripts and templates see the variable
+    nsc = []
+    for k, (name, val) in enumerate([("total", 3000000042), ("limit", -2147483649), ("label", "ünï"), ("ratio", 1.5)]):
+        w = {"id": "mv", "inputs": {name: val, "t": None, "r": None, "q": None}, "outputs": {"t": None, "r": None, "q": None},
+             "steps": [{"id": "s1", "branches": [{"id": name if k % 2 else "b1", "if": "true", "steps": [{"id": "s2", "acts": [
+                 {"id": "b1" if k % 2 else name, "uses": gen.CODE, "params": f"return {{t: typeof {name}, r: {name}}};"},
+                 {"id": "a2", "uses": gen.SET, "params": {"q": "{{ %s }}" % name}}]}]}]}]}
+        nsc.append(({"id": f"shadow-{k}", "config": {"keep": True}, "models": [w], "ops": [["deploy", 0], ["start", "mv", {"pid": "p1"}], ["runall"]]}, name, val))
+    nres = ctx.harness("run", [x[0] for x in nsc], tag="sh")
+    for (sc, name, val), res in zip(nsc, nres):
+        ctx.cov["evaluations"] += 1
+        outs = None
+        for _, o in obs_of(res, {"pev"}):
+            if o.get("ev") == "complete" and o.get("chan") == "default":
+                outs = o.get("outputs")
+        want_t = {int: "number", float: "number", str: "string"}[type(val)]
+        if outs is None or outs.get("t") != want_t or outs.get("r") != val or outs.get("q") != val:
+            ctx.violation("C14|variable-shadowed-by-node-id", f"variable {name} = {val!r} beside a node with the id {name}: the script saw typeof = {None if outs is None else outs.get('t')!r}, "
+                          f"value {None if outs is None else outs.get('r')!r}, the template gave {None if outs is None else outs.get('q')!r}", {"scenario": sc})
+        else:
+            ctx.nontrivial(["shadow", name])
+    # ---- template expressions with text beyond ASCII (the offsets of a template are byte offsets, the length of a string is not its
+    #      number of characters): literal expressions with their expected values
+    UNI = [('{{ "héé" }}!!', "héé!!"), ('{{ "日本語" }}', "日本語"), ('ü{{ x }}ö{{ "ß" }}', "ü3öß"), ('{{ [s, "é", big] }}', ["str val", "é", 3000000000]),
+           ('{{ "é" }}', "é"), ('a{{ "日本" }}', "a日本"), ('{{ "ab" }}cd', "abcd"), ('{{ ({"k": "ü", "n": big}) }}', {"k": "ü", "n": 3000000000}),
+           ('{{ "😀" }}!', "😀!"), ('{{ s }} — {{ "né" }}', "str val — né")]
+    usc = []
+    for k in range(0, len(UNI), 4):
+        usc.append(tmpl_scenario(900000 + k, [u for u, _ in UNI[k:k + 4]]))
+    ures2 = ctx.harness("run", usc, tag="tu")
+    for k, (sc, res) in enumerate(zip(usc, ures2)):
+        ctx.cov["evaluations"] += 1
+        params = None
+        for _, o in obs_of(res, {"gen"}):
+            if o.get("nid") == "a1":
+                params = (o.get("inputs") or {}).get("params")
+        for j, (u, want) in enumerate(UNI[4 * k: 4 * k + 4]):
+            stats["unicode_templates"] = stats.get("unicode_templates", 0) + 1
+            got = None if params is None else params.get(f"p{j}")
+            if got != want:
+                ctx.violation("C14|template|unicode", f"template string {u!r} filled as {json.dumps(got, ensure_ascii=False)[:80]}, expected {json.dumps(want, ensure_ascii=False)[:80]}",
+                              {"scenario": sc, "string": u})
+                break
+            ctx.nontrivial(u)
     # ---- scanner vs the regex crate on arbitrary brace/newline strings
     cases = [{"s": rand_brace_string(rng.fork("r%d" % i))} for i in range(nr)]
     rres = ctx.harness("regex", cases, tag="r")
